@@ -71,7 +71,7 @@ use std::fs::File;
 use std::io::{BufReader, BufWriter, Seek, SeekFrom, Write};
 use std::path::{Path, PathBuf};
 use bytes::Bytes;
-use log::error;
+use log::{error, warn};
 use rpki::uri;
 use rpki::crypto::DigestAlgorithm;
 use rpki::repository::cert::{Cert, ResourceCert};
@@ -190,6 +190,16 @@ impl Store {
         };
         match StoredStatus::read(&mut file) {
             Ok(status) => Ok(Some(status)),
+            Err(err) if !err.is_fatal() => {
+                // A truncated or otherwise unreadable status file (e.g.
+                // after a crash while it was being written) is as good as
+                // none. It will be rewritten at the end of the next run.
+                warn!(
+                    "Ignoring unreadable store status file {}: {}",
+                    path.display(), err
+                );
+                Ok(None)
+            }
             Err(err) => {
                 error!("Failed to read store status file {}: {}",
                     path.display(), err
